@@ -195,8 +195,23 @@ pub fn run(ctx: &mut Ctx, real: &mut Real, sw: &Sweep) {
         let ft = match foot(name) {
             Some(f) => f,
             None => {
-                if let Some(id) = ctx.take() {
-                    ctx.record(id, "unmodelled", Verdict::fail(name, "unmodelled", format!("registered instruction {} has no footprint row", name)), || name.clone());
+                // an instruction the reference does not know (registered after the pinned tree): nothing is claimed
+                // about its semantics; it is executed on the empty and on the populated state, and only a crash is
+                // reported. The gap is listed in the evidence (caps), it is not a violation.
+                let note = format!("instruction {} is registered but unknown to the reference model: only 'does not crash on the empty and on the populated state' was checked", name);
+                if !ctx.caps.contains(&note) {
+                    ctx.caps.push(note);
+                }
+                for (bl, base) in [("empty", M::default()), ("populated", populated())] {
+                    if let Some(id) = ctx.take() {
+                        ctx.transitions += 1;
+                        let out = step_once(real, &with_instr(&base, name));
+                        let v = match &out {
+                            Outcome::Panic(p) => Verdict::fail(name, &panic_class(p), p.clone()),
+                            Outcome::Ok(_) => Verdict::Pass,
+                        };
+                        ctx.record(id, &format!("{}|{}", name, out.key()), v, || format!("{} (unknown to the reference) on the {} state", name, bl));
+                    }
                 }
                 continue;
             }
